@@ -4,5 +4,6 @@ T=${1:-quick}
 for p in C01 C02 C03 C04 C05 C06 C07 C08 C09 C10 C11 C12 C13 C14 C15 C16 C17 C18 C19; do
   s=$(date +%s); ./check $p --tier $T > /tmp/run_all_$p.out 2> /tmp/run_all_$p.err; rc=$?
   echo "$p tier=$T exit=$rc $(( $(date +%s) - s ))s $(grep -c KNOWN-FINDING /tmp/run_all_$p.out) known-findings $(tail -1 /tmp/run_all_$p.err | cut -c1-120)"
-  [ $rc -ne 0 ] && grep -E "UNDECIDED|VIOLATION|FAILED OBL" /tmp/run_all_$p.err /tmp/run_all_$p.out | head -5 | cut -c1-300
+  if [ $rc -ne 0 ]; then bad=1; grep -E "UNDECIDED|VIOLATION|FAILED OBL" /tmp/run_all_$p.err /tmp/run_all_$p.out | head -5 | cut -c1-300; fi
 done
+exit ${bad:-0}
